@@ -141,7 +141,7 @@ type Check struct {
 
 var registry = map[string]*Check{}
 
-func Register(ch *Check) { registry[ch.ID] = ch }
+func Register(ch *Check)   { registry[ch.ID] = ch }
 func Get(id string) *Check { return registry[id] }
 func IDs() []string {
 	var ids []string
